@@ -173,7 +173,13 @@ class Gen:
         if k == 0:
             return ("str", "")
         pool = ["a", "b", "Z", "0", " ", "\"", "\"", "-", "x y", "it", "()", "--", "'", ",", "{", "}", "|", "::="]
-        return ("str", "".join(self.r.choice(pool) for _ in range(self.r.range(1, 6))))
+        t = "".join(self.r.choice(pool) for _ in range(self.r.range(1, 6)))
+        if t.startswith("'"):
+            # asn1p_l.l: the "prohibited symbol" rule (a mis-bracketed character class) matches any character
+            # followed by '" — three characters, longer than the cstring rule's match — so the lexeme "'" (and
+            # "'""...") is refused; such a value cannot come out of the parser either, hence never out of the printer
+            t = "q" + t
+        return ("str", t)
 
     def real(self):
         k = self.r.below(6)
@@ -196,18 +202,18 @@ class Gen:
             if ty and ty[1] and self.r.chance(1, 2):
                 return ("ref", self.r.choice(ty[1])[0])          # a named number
             return self.vref("int", qual) or self.r.choice([self.z(-1000, 1000), self.z(), 9223372036854775807, -9223372036854775807])
-        if tyk == "BOOLEAN":
-            return self.vref("bool", qual) or ("bool", self.r.chance(1, 2))
+        if tyk == "BOOLEAN":             # (DEFAULT by reference is accepted for INTEGER and character strings only)
+            return ("bool", self.r.chance(1, 2))
         if tyk == "NULL":
             return ("null",)
-        if tyk == "OCTET STRING":
-            return self.vref("oct", qual) or self.bits(True)
+        if tyk == "OCTET STRING":        # (a reference to an OCTET/BIT STRING value is refused by the semantic pass)
+            return self.bits(True)
         if tyk == "BIT STRING":
-            return self.vref("bit", qual) or self.bits()
+            return self.bits()
         if tyk in ("IA5String", "UTF8String"):
             return self.vref("str", qual) or self.cstr()
         if tyk == "REAL":
-            return self.vref("real", qual) or self.real()
+            return self.real()
         if tyk == "ENUMERATED":
             ids = [it[1] for it in ty[1] if it[0] == "i"]
             return ("ref", self.r.choice(ids))
@@ -255,8 +261,6 @@ class Gen:
         for _ in range(n):
             out.append(("i", self.ident(used), v if explicit else None))
             v += self.r.range(1, 4)
-        if explicit and self.vals and self.vals.get("big") and self.r.chance(1, 4):
-            out.append(("i", self.ident(used), ("ref", self.r.choice(self.vals["big"]))))
         if self.r.chance(1, 3):
             k = self.r.range(1, len(out))
             out.insert(k, ("ext",))
@@ -433,6 +437,78 @@ def constr_has(c, kind):
     if c[0] in ("uni", "int", "csv", "set"):
         return any(constr_has(e, kind) for e in c[1])
     return False
+
+
+def value_boundary_modules():
+    """directed cases of the VALUE sub-language, the same in every run: every value kind at its boundaries in
+    every position the grammar has a value (value assignment, DEFAULT, single-value constraint, range end
+    points, named numbers, ENUMERATED values, exception spec, contained subtype)"""
+    T = lambda ty, c=None, tag=None: (tag, ty, c)
+    INT, OCT, BIT, IA5, REAL, BOOL, NUL = ("INTEGER", []), ("OCTET STRING",), ("BIT STRING", []), ("IA5String",), ("REAL",), ("BOOLEAN",), ("NULL",)
+    hexall = "".join(format(i, "04b") for i in range(16))
+    mods = []
+    # 1. bit strings: all sixteen digits, every length 1..17, multiples of 8 (hstring) and 4 (bstring in print)
+    ass = [("vall", T(OCT), ("bits", hexall)), ("vaf", T(OCT), ("bits", "".join(format(i, "04b") for i in (10, 11, 12, 13, 14, 15, 15, 10)))),
+           ("vzero", T(OCT), ("bits", "0" * 8)), ("vff", T(OCT), ("bits", "1" * 8))]
+    for n in range(1, 18):
+        ass.append(("vb%d" % n, T(BIT), ("bits", ("1011001110001111" * 2)[:n])))
+    ass.append(("vnib3", T(BIT), ("bits", "101011001110")))          # 'ACE'H in source, a bstring in print
+    ass.append(("QaFrame", T(("SEQUENCE", [
+        ("c", "magic", T(OCT, ("set", [("size", ("set", [("val", 4)]))])), ("DEF", ("bits", format(0xCAFEBABE, "032b")))),
+        ("c", "flags", T(BIT), ("DEF", ("bits", "10100000"))),
+        ("c", "odd", T(BIT), ("DEF", ("bits", "101"))),
+        ("ext", 7),
+        ("c", "pad", T(OCT), ("DEF", ("bits", "0" * 16)))]))))
+    ass.append(("QaMarker", T(OCT, ("set", [("uni", [("val", ("bits", format(0xFF00, "016b"))), ("val", ("bits", format(0x00FF, "016b"))),
+                                                      ("val", ("ref", "vaf"))])]))))
+    ass.append(("QaBits", T(BIT, ("set", [("uni", [("val", ("bits", "1")), ("val", ("bits", "11011110101011011011111011101111"))])]))))
+    mods.append({"name": "ValB1", "tagdef": "AUTOMATIC", "extimpl": False, "assigns": ass})
+    # 2. character strings: empty, quotes, doubled quotes, comment and bracket look-alikes
+    strs = ["", "a", "\"", "\"\"", "say \"hi\"", "--", "a -- b", "/* c */", "{ ( [ | ^", "it's", "x\"", "\"x", "::=", "END"]
+    ass = [("vs%d" % i, T(IA5), ("str", t)) for i, t in enumerate(strs)]
+    ass.append(("QaWords", T(IA5, ("set", [("uni", [("val", ("str", t)) for t in strs[:6]])]))))
+    ass.append(("QaRec", T(("SET", [("c", "s%d" % i, T(IA5, None, ("C", i, "")), ("DEF", ("str", t))) for i, t in enumerate(strs[:8])] +
+                            [("c", "byref", T(IA5, None, ("C", 20, "")), ("DEF", ("ref", "vs4")))]))))
+    mods.append({"name": "ValB2", "tagdef": "", "extimpl": False, "assigns": ass})
+    # 3. numbers, NULL, BOOLEAN, reals, references in every position
+    big = 9223372036854775807
+    ass = [("vmin", T(INT), -big), ("vmax", T(INT), big), ("vzero", T(INT), 0), ("vneg", T(INT), -1), ("vten", T(INT), 10),
+           ("vchain", T(INT), ("ref", "vten")), ("vqual", T(INT), ("ref2", "ValB3", "vchain")),
+           ("vt", T(BOOL), ("bool", True)), ("vf", T(BOOL), ("bool", False)), ("vn", T(NUL), ("null",)),
+           ("vr0", T(REAL), ("real", False, "0", "000000")), ("vrn0", T(REAL), ("real", True, "0", "000000")),
+           ("vr1", T(REAL), ("real", False, "3", "140000")), ("vr2", T(REAL), ("real", True, "123456789", "123456")),
+           ("vr3", T(REAL), ("real", False, "0", "000001")), ("vr4", T(REAL), ("real", False, "999999999", "999999")),
+           ("QaRange", T(INT, ("set", [("range", ("ref", "vneg"), ("ref", "vten"))]))),
+           ("QaRangeQ", T(INT, ("set", [("range", -5, ("ref2", "ValB3", "vten"))]))),
+           ("QaEnds", T(INT, ("set", [("uni", [("range", "MIN", -big), ("val", ("ref", "vzero")), ("range", big, "MAX")])]))),
+           ("QaSized", T(OCT, ("set", [("size", ("set", [("range", 0, ("ref", "vten"))]))]))),
+           ("QaIncl", T(INT, ("set", [("ctype", None, "QaRange")]))),
+           ("QaInclQ", T(INT, ("set", [("uni", [("ctype", "ValB3", "QaRange"), ("range", 100, 200)])]))),
+           ("QaReal", T(REAL, ("set", [("uni", [("range", ("real", True, "1", "500000"), ("real", False, "2", "500000")),
+                                                 ("val", ("real", False, "1000", "000000"))])]))),
+           ("QaNamed", T(("INTEGER", [("lo", -3), ("hi", ("ref", "vten")), ("far", ("ref2", "ValB3", "vmax"))]))),
+           ("QaEnum", T(("ENUMERATED", [("i", "red", 0), ("i", "green", 10), ("ext",), ("i", "blue", 100)]))),
+           ("QaRec", T(("SEQUENCE", [
+               ("c", "a", T(INT), ("DEF", -big)), ("c", "b", T(INT), ("DEF", ("ref", "vchain"))),
+               ("c", "c", T(BOOL), ("DEF", ("bool", True))), ("c", "d", T(BOOL), ("DEF", ("bool", False))),
+               ("c", "e", T(NUL), ("DEF", ("null",))), ("c", "f", T(REAL), ("DEF", ("real", True, "0", "500000"))),
+               ("c", "g", T(("ENUMERATED", [("i", "on", None), ("i", "off", None)])), ("DEF", ("ref", "off"))),
+               ("c", "h", T(("INTEGER", [("one", 1), ("two", 2)])), ("DEF", ("ref", "two"))),
+               ("ext", ("ref", "vten")),
+               ("c", "i", T(INT), ("DEF", ("ref2", "ValB3", "vqual")))]))),
+           ("QaExc", T(("CHOICE", [("c", "x", T(INT), None), ("ext", -5), ("c", "y", T(BOOL), None)]))),
+           ("vtyped", T(("REF", "QaRange")), 3)]
+    mods.append({"name": "ValB3", "tagdef": "AUTOMATIC", "extimpl": False, "assigns": ass})
+    # 4. value references the printer handles but asn1c's semantic pass does not (print/parse level only):
+    #    an ENUMERATED value given by reference (the fixer dies with SIGSEGV), DEFAULT of an OCTET/BIT STRING by
+    #    reference ("Possibly incompatible type", exit 65)
+    ass = [("vten", T(INT), 10), ("vaf", T(OCT), ("bits", "10101111")), ("vbb", T(BIT), ("bits", "101")), ("vf", T(BOOL), ("bool", False)),
+           ("vr", T(REAL), ("real", False, "1", "500000")),
+           ("QaDefB", T(("SET", [("c", "d", T(BOOL), ("DEF", ("ref", "vf"))), ("c", "r", T(REAL), ("DEF", ("ref", "vr")))]))),
+           ("QaEnumR", T(("ENUMERATED", [("i", "red", 0), ("i", "green", ("ref", "vten")), ("ext",), ("i", "blue", ("ref2", "ValB4", "vten"))]))),
+           ("QaDefR", T(("SEQUENCE", [("c", "byref", T(OCT), ("DEF", ("ref", "vaf"))), ("c", "qref", T(BIT), ("DEF", ("ref2", "ValB4", "vbb")))])))]
+    mods.append({"name": "ValB4", "tagdef": "", "extimpl": False, "assigns": ass})
+    return mods
 
 
 # ---------------------------------------------------------------------------
@@ -1029,7 +1105,26 @@ class Rich:
             o = "o%s%d" % (st["pfx"].lower(), st["n"])
             self.add(st, o, "%s OBJECT IDENTIFIER ::= { iso org(3) dod(6) %d %d }" % (o, self.r.below(40), self.r.below(9000)), "value")
             s = "s%s%d" % (st["pfx"].lower(), st["n"])
-            self.add(st, s, '%s IA5String ::= "%s"' % (s, self.r.choice(["abc", "x y", "Hello"])), "value")
+            self.add(st, s, '%s IA5String ::= "%s"' % (s, self.r.choice(["abc", "x y", "Hello", 'say ""hi""', ""])), "value")
+        # bit/octet strings in hexadecimal and binary notation (digits A-F, lengths not a multiple of 8 / 4), braced values
+        # (SEQUENCE / OID values are kept as raw text by the parser), REAL values, in value assignments, DEFAULTs and constraints
+        hx = lambda n: "".join(self.r.choice("0123456789ABCDEF") for _ in range(n))
+        h = "h%s%d" % (st["pfx"].lower(), st["n"])
+        self.add(st, h, "%s OCTET STRING ::= '%s'H" % (h, hx(2 * self.r.range(1, 6))), "value")
+        bv = "k%s%d" % (st["pfx"].lower(), st["n"])
+        self.add(st, bv, "%s BIT STRING ::= '%s'%s" % ((bv,) + self.r.choice([(hx(self.r.choice([1, 3, 5])), "H"),
+                 ("".join(self.r.choice("01") for _ in range(self.r.range(1, 19))), "B"), (hx(4), "H")])), "value")
+        t3 = self.fresh(st, "HexDef")
+        self.add(st, t3, "%s ::= SEQUENCE { magic [0] OCTET STRING (SIZE(4)) DEFAULT '%s'H, flags [1] BIT STRING DEFAULT '%s'H, "
+                         "odd [2] BIT STRING DEFAULT '%s'B, r [3] REAL DEFAULT %s, oid [4] OBJECT IDENTIFIER DEFAULT { iso 3 %d }, "
+                         "sub [5] SEQUENCE { a INTEGER, b BOOLEAN } DEFAULT { a %d, b TRUE }, body [6] OCTET STRING (SIZE(0..32)) }"
+                 % (t3, hx(8), hx(2), "".join(self.r.choice("01") for _ in range(self.r.range(1, 7))),
+                    self.r.choice(["3.14", "-0.5", "100.0", "0.25"]), self.r.below(99), self.r.range(-9, 9)))
+        t4 = self.fresh(st, "HexSet")
+        self.add(st, t4, "%s ::= OCTET STRING ('%s'H | '%s'H%s)" % (t4, hx(4), hx(4), self.r.choice(["", " | '%s'H" % hx(2), ", ..."])))
+        if self.r.chance(1, 2):
+            sv = "q%s%d" % (st["pfx"].lower(), st["n"])
+            self.add(st, sv, "%s %s ::= { body '%s'H }" % (sv, t3, hx(2 * self.r.range(1, 4))), "value")
 
     def tagtxt(self, used):
         for _ in range(50):
